@@ -19,6 +19,11 @@ CLAIM = {
     "design_ref": "DESIGN.md §5 C17",
 }
 
+# VecDeque operations that neither add, remove nor reorder elements (observers and capacity management)
+OBSERVERS = ("is_empty", "len", "iter", "front", "back", "get", "contains", "as_slices", "capacity", "reserve", "reserve_exact", "try_reserve",
+             "try_reserve_exact", "shrink_to_fit", "shrink_to", "make_contiguous")
+
+
 def calls_matching(body, pat, recv=None, argi=0):
     out = []
     for bb, t in xcalls(body):
@@ -106,6 +111,126 @@ def zero_split(body, term, is_value):
     if term["vals"] == ["0"] and term.get("dty") != "bool" and is_value(term["d"]):
         return term["otherwise"], term["targets"][0]
     return None
+
+
+ERRNO = {"INTR": 4, "AGAIN": 11, "WOULDBLOCK": 11}
+_WRITE_ERR = r"io::write\(.*\)@Err\.0"
+
+
+def errno_cmp(t):
+    """'eq' / 'ne' when the call compares two rustix Errno values (derived PartialEq::eq or the trait's default `ne`); else None"""
+    f = t["fn"]
+    nm = f.get("resolved") or f.get("path") or ""
+    m = re.search(r"^<rustix::io::Errno as std::cmp::PartialEq>::(eq|ne)$", nm)
+    if m:
+        return m.group(1)
+    m = re.search(r"^std::cmp::PartialEq::(eq|ne)$", nm)
+    g = f.get("resolved_generics") or f.get("generics") or []
+    if m and len(g) == 2 and all(x == "rustix::io::Errno" for x in g):
+        return m.group(1)
+    return None
+
+
+def errno_const(body, operand):
+    """errno number of an operand that is (a reference to) a constant `rustix::io::Errno::NAME`, also behind a promoted constant"""
+    from ..flow import promoted_aggs, _promoted_index
+    l = op_local(operand)
+    seen = set()
+    while True:
+        if operand["k"] == "const":
+            c = operand["c"]
+            k = _promoted_index(c)
+            cs = [rv["c"] for rv in promoted_aggs(body, k) if rv["k"] == "const"] if k is not None else [c]
+            for c in cs:
+                m = re.search(r"rustix::io::Errno::([A-Z0-9]+)$", c.get("def") or c.get("text") or "")
+                if m and m.group(1) in ERRNO:
+                    return ERRNO[m.group(1)]
+            return None
+        l = operand["place"]["l"]
+        if l in seen:
+            return None
+        seen.add(l)
+        ds = body.defs_of(l)
+        if len(ds) != 1 or ds[0][1] == "term":
+            return None
+        rv = ds[0][2]
+        if rv["k"] == "use":
+            operand = rv["a"]
+        elif rv["k"] == "ref":
+            operand = {"k": "copy", "place": {"l": rv["place"]["l"], "p": []}}
+        else:
+            return None
+
+
+def errno_dispatch(body, start, value):
+    """block reached from `start` (the block a raw write returns to) when the write fails with errno `value`, following only branches
+    on the write's result; stops at the first block that does anything else"""
+    def is_write_err(o, raw=False):
+        e = expr(body, o)
+        return bool(re.fullmatch(_WRITE_ERR + (r"\.0" if raw else ""), e))
+
+    def truth(l, seen=()):
+        """value of a bool local under errno == value; None if it is not a test of the errno"""
+        if l in env:
+            return bool(env[l])
+        if l is None or l in seen:
+            return None
+        ds = body.defs_of(l)
+        if len(ds) != 1:
+            return None
+        bb, si, rv = ds[0]
+        if si == "term":
+            if errno_cmp(rv) is None or len(rv["args"]) != 2:
+                return None
+            a, b = rv["args"]
+            n = errno_const(body, b)
+            x = a
+            if n is None:
+                n, x = errno_const(body, a), b
+            if n is None or not is_write_err(x):
+                return None
+            r = value == n
+            return r if errno_cmp(rv) == "eq" else not r
+        if rv["k"] == "use":
+            return truth(op_local(rv["a"]), tuple(seen) + (l,))
+        if rv["k"] == "un" and rv["op"] == "Not":
+            r = truth(op_local(rv["a"]), tuple(seen) + (l,))
+            return None if r is None else not r
+        return None
+
+    env = {}
+    bb = start
+    raw = (65536 - value) & 0xFFFF
+    for _ in range(64):
+        blk = body.blocks[bb]
+        tt = blk["term"]
+        for x in blk["stmts"]:
+            if x["k"] == "assign" and not x["place"]["p"] and x["rv"]["k"] == "use" and body.local_ty(x["place"]["l"]) == "bool" and op_const_int(x["rv"]["a"]) in (0, 1):
+                env[x["place"]["l"]] = op_const_int(x["rv"]["a"])
+        if any(x["k"] == "assign" and x["rv"]["k"] == "agg" and x["rv"].get("ak") == "adt" for x in blk["stmts"]):
+            return bb           # builds a result
+        if tt["k"] == "goto":
+            bb = tt["t"]
+            continue
+        if tt["k"] == "call" and errno_cmp(tt) and tt["t"] >= 0:
+            bb = tt["t"]
+            continue
+        if tt["k"] != "switch":
+            return bb
+        e = expr(body, tt["d"])
+        if re.fullmatch(r"discr\(io::write\(.*\)\)", e):
+            bb = tt["targets"][tt["vals"].index("1")] if "1" in tt["vals"] else tt["otherwise"]
+            continue
+        if is_write_err(tt["d"], raw=True):
+            vals = [int(v) & 0xFFFF for v in tt["vals"]]
+            bb = tt["targets"][vals.index(raw)] if raw in vals else tt["otherwise"]
+            continue
+        ed = bool_edges(tt)
+        r = truth(op_local(tt["d"])) if ed else None
+        if r is None:
+            return bb
+        bb = ed[0] if r else ed[1]
+    return bb
 
 
 def run(ctx):
@@ -316,7 +441,7 @@ def run(ctx):
         calls = [(bb, t) for bb, t in wk.calls()]
         names = [callee_name(t) for bb, t in calls]
         writes = [(bb, t) for bb, t in calls if call_matches(t, r"^rustix::io::write$")]
-        other = [n for n in names if n != "rustix::io::write" and not re.search(r"(Into<U>>::into|From<.*>>::from|Into::into|From::from)$", n)]
+        other = [callee_name(t) for bb, t in calls if not call_matches(t, r"^rustix::io::write$|(Into<U>>::into|From<.*>>::from|Into::into|From::from)$") and not errno_cmp(t)]
         ctx.instance("WAKER", {"closure": wk.path, "calls": names})
         if len(writes) != 1 or other:
             ctx.violation("WAKER", wk.path, "effects", "the waker closure must perform exactly one rustix::io::write and nothing else (signal-safe, non-blocking); calls: %s" % names, sites=[wk.loc])
@@ -343,16 +468,26 @@ def run(ctx):
             if not data:
                 ctx.violation("WAKER", wk.path, "payload", "the waker does not write a non-empty constant (a zero-length write wakes nobody)", sites=["%s:%d" % (wk.file, t["line"])])
             # error mapping: both EINTR(4) and EAGAIN(11) errno values lead to the Ok block
+            # (the closure's result: its own _0, or the return place of an expanded helper whose result it returns as it is)
+            fwd = {0}
+            grew = True
+            while grew:
+                grew = False
+                for i, si, s in wk.assigns():
+                    if s.get("inl_ret") and not s["place"]["p"] and s["place"]["l"] in fwd and s["rv"]["a"]["place"]["l"] not in fwd:
+                        fwd.add(s["rv"]["a"]["place"]["l"])
+                        grew = True
             okblocks = set()
             for i, si, s in wk.assigns():
-                if s["place"]["l"] == 0 and s["rv"]["k"] == "agg" and s["rv"].get("variant") == "Ok":
+                if s["place"]["l"] in fwd and not s["place"]["p"] and s["rv"]["k"] == "agg" and s["rv"].get("variant") == "Ok":
                     okblocks.add(i)
+            # decided per errno value, by following the branches on the write's result from the write call: the discriminant switch
+            # (Err arm), a switch on the raw errno, `e == Errno::X` / `e != Errno::X` tests (either operand order, negated,
+            # `matches!` temporaries) — a `match` with or-patterns, a guard, or an if-chain all end in the same block
             mapped = set()
-            for i, tt in wk.terms():
-                if tt["k"] == "switch" and tt["d"]["k"] in ("copy", "move") and "Err" in place_str(tt["d"]["place"]):
-                    for v, tg in zip(tt["vals"], tt["targets"]):
-                        if tg in okblocks:
-                            mapped.add((65536 - int(v)) if int(v) > 32768 else int(v))
+            for name, num in (("EINTR", 4), ("EAGAIN", 11)):
+                if errno_dispatch(wk, t["t"], num) in okblocks:
+                    mapped.add(num)
             ctx.instance("WAKER", {"errno_mapped_to_ok": sorted(mapped)})
             for name, num in (("EINTR", 4), ("EAGAIN", 11)):
                 if num not in mapped:
@@ -584,7 +719,7 @@ def run(ctx):
                 continue
             op = nm.split("::")[-1]
             n_ops += 1
-            if op in ("is_empty", "len", "iter", "front", "back"):
+            if op in OBSERVERS:
                 ctx.instance("EVENT-ORDER", {"fn": b.path, "op": op, "ok": True})
                 continue
             if is_poll:
